@@ -22,7 +22,8 @@ def check(tier, seed):
     def vary(i, r):
         return {"big": i % 4 == 0, "liveness": False}
     R.engine(ck, PROP, tier, seed, {"faults": False, "vary": vary}, ("C01",), 160, 8000, proof_ok, nontrivial,
-             "random histories", project=("K",))
+             "random histories", project=("K",),
+             extra_histories=lambda r, exe, tier: [R.gen_long_ring(r.fork("ring%d" % i), exe) for i in range(1 if tier == "quick" else 6)])
     return ck.finish(rule="histories of 1-3 sources x 1-4 targets generated from VERIF_SEED through the extracted model (Temporal-like sources, multi-task and watermark batches, "
                           "prompt / lagging / arbitrary / repeated acks, late-connecting and stalled targets); non-trivial = >= 2 targets, >= 2 task batches and >= 2 acks; distinct by sha256")
 
